@@ -728,6 +728,24 @@ impl Chain {
                 }
             }
         }
+        if std::env::var("CWSIM_TRACE").is_ok() {
+            let log = self.ctl.log.borrow();
+            eprintln!("tx {} ok={} aborted_outside={}", tx, ok, aborted_outside);
+            for ev in &log[from..to] {
+                match ev {
+                    Event::Frame(f) => eprintln!(
+                        "   frame {:?} {:?} {} sender={} msg={} -> {}",
+                        f.kind,
+                        f.entry,
+                        &f.addr[f.addr.len().saturating_sub(6)..],
+                        &f.sender[f.sender.len().saturating_sub(6)..],
+                        String::from_utf8_lossy(&f.msg).chars().take(160).collect::<String>(),
+                        f.outcome.class()
+                    ),
+                    Event::Module(m) => eprintln!("   module sender={} {:?} ok={}", &m.sender[m.sender.len().saturating_sub(6)..], m.msg, m.ok),
+                }
+            }
+        }
         if ok {
             self.ctl.bump("tx_ok");
         } else {
